@@ -288,7 +288,10 @@ Returns:
             llod_val = llod_values[vi]
             ulod_flag = ulod_flags[vi]
             ulod_val = ulod_values[vi]
-            vals = MaskedArray(dat * scale, mask=(dat == miss),
+            # (the independent variable has no missing code of its own: the
+            # first dependent variable's code stands in for the attribute, it
+            # does not mask times)
+            vals = MaskedArray(dat * scale, mask=(dat == miss) & (vi > 0),
                                fill_value=miss)
             scale = scales[vi] = 1  # Set to 1 after applying
             tmpvar = self.variables[var] = PseudoNetCDFVariable(
